@@ -115,6 +115,13 @@ func execGE(_ *config, op string) string {
 		case "sd":
 			f := parseFloats(toks[1:])
 			out = b01(geo.VerifSameDirection(f[0], f[1]))
+		case "scd":
+			f := parseFloats(toks[1:])
+			sn, cs := geo.VerifSincosd(f[0])
+			out = hexFloats(sn, cs)
+		case "atd":
+			f := parseFloats(toks[1:])
+			out = hexFloats(geo.VerifAtan2d(f[0], f[1]))
 		case "rt":
 			f := parseFloats(toks[1:])
 			g := geo.NewGnomonic(geodesic.WGS84)
@@ -164,7 +171,7 @@ func genGE(cfg *config, r *rng, i int, s *sink) string {
 	case "C18":
 		kinds = []string{"dist", "dist", "dtl"}
 	case "C19":
-		kinds = []string{"meet", "sd", "rt", "rt", "ix", "ix"}
+		kinds = []string{"meet", "sd", "rt", "rt", "ix", "ix", "scd", "atd"}
 	}
 	kind := kinds[i%len(kinds)]
 	s.count("ge." + kind)
@@ -245,6 +252,23 @@ func genGE(cfg *config, r *rng, i int, s *sink) string {
 			b = (r.float01()*2 - 1) * 180
 		}
 		return "sd " + hexFloats(a, b)
+	case "scd":
+		// every multiple of 15 degrees (the octant boundaries are where the reduction can slip), near misses, random
+		x := float64(r.rangeInt(-48, 48)) * 15
+		switch r.intn(3) {
+		case 0:
+			x += (r.float01() - 0.5) * 1e-9
+		case 1:
+			x = (r.float01()*2 - 1) * 720
+		}
+		return "scd " + hexFloats(x)
+	case "atd":
+		y := (r.float01()*2 - 1) * math.Pow(10, float64(r.rangeInt(-3, 7)))
+		x := (r.float01()*2 - 1) * math.Pow(10, float64(r.rangeInt(-3, 7)))
+		if r.chance(1, 3) {
+			x = pick(r, []float64{y, -y, 0, 1, -1})
+		}
+		return "atd " + hexFloats(y, x)
 	case "rt":
 		lat0 := (r.float01()*2 - 1) * 89
 		lon0 := (r.float01()*2 - 1) * 180
